@@ -45,6 +45,21 @@ type Recorder struct {
 	ImagesBy map[string][]uint64
 	// Created: replica name -> index of every locally created snapshot recorded in the log store
 	Created map[string][]uint64
+	// Installed: replica name -> index of every received snapshot raft accepted;
+	// RecoveredBy: replica name -> applied index carried by every image handed to RecoverFromSnapshot
+	Installed   map[string][]uint64
+	RecoveredBy map[string][]uint64
+}
+
+// SnapshotInstalled records the index of a received snapshot that raft accepted.
+func (r *Recorder) SnapshotInstalled(shard, replica, index uint64) {
+	r.mu.Lock()
+	defer r.mu.Unlock()
+	if r.Installed == nil {
+		r.Installed = map[string][]uint64{}
+	}
+	name := fmt.Sprintf("%d/%d", shard, replica)
+	r.Installed[name] = append(r.Installed[name], index)
 }
 
 // SnapshotCreated records the index a finished snapshot is stamped with.
@@ -419,6 +434,12 @@ func readImage(r io.Reader) (kvImage, error) {
 }
 
 func (c *kvCore) install(img kvImage) {
+	c.rec.mu.Lock()
+	if c.rec.RecoveredBy == nil {
+		c.rec.RecoveredBy = map[string][]uint64{}
+	}
+	c.rec.RecoveredBy[c.name] = append(c.rec.RecoveredBy[c.name], img.Applied)
+	c.rec.mu.Unlock()
 	c.mu.Lock()
 	defer c.mu.Unlock()
 	c.data = map[string]string{}
